@@ -497,3 +497,26 @@ Proof.
     destruct Ha. }
   split; [vm_compute; lia|]. split; vm_compute; reflexivity.
 Qed.
+
+(* ============================================================================================================== *)
+(* the json stage's own code over a JSON value tree (model/InternalJson.v; the byte-level decoder jx is the oracle that
+   yields the tree, checks/c09.py ties json_decode to the real stage on every generated (parameters, line) row)     *)
+From Qryn Require model.InternalJson.
+Module J := InternalJson.
+
+(* `| json` on {"a":{"b.c":"1","k-2":{"z":7}},"a_b_c":"2","l":[1,2],"é":null}: nested names are joined with "_" and
+   sanitised (one "_" per rune outside [a-zA-Z0-9_]), a later assignment to the same name wins, arrays are skipped,
+   scalars keep their raw text *)
+Example json_flattening_example :
+  J.json_all (J.JObj [("a", J.JObj [("b.c", J.JStr "1"); ("k-2", J.JObj [("z", J.JRaw "7")])]); ("a_b_c", J.JStr "2");
+                      ("l", J.JArr [J.JRaw "1"; J.JRaw "2"]); (String (ascii_of_N 195) (String (ascii_of_N 169) EmptyString), J.JRaw "null")])
+  = Some [("_", "null"); ("a_b_c", "2"); ("a_k_2_z", "7")].
+Proof. vm_compute. reflexivity. Qed.
+
+(* `| json x="a[1].q", y="a", app="missing", z="s"` on {"a":[0,{"q":"v"}],"s":""}: one pass finds x; y ends at an array and
+   app at nothing: no label; z meets an empty string: no label (since 7f68b19) -- and the per-path reference agrees *)
+Example json_params_example :
+  let doc := J.JObj [("a", J.JArr [J.JRaw "0"; J.JObj [("q", J.JStr "v")]]); ("s", J.JStr "")] in
+  let ps := [("x", [J.PKey "a"; J.PIdx 1; J.PKey "q"]); ("y", [J.PKey "a"]); ("app", [J.PKey "missing"]); ("z", [J.PKey "s"])] in
+  J.json_params ps doc = [("x", "v")] /\ map (fun a => J.jlookup doc (snd a)) ps = [Some "v"; None; None; None].
+Proof. vm_compute. split; reflexivity. Qed.
